@@ -866,6 +866,9 @@ def op_checklocktimeverify(stack, tx_obj, input_index):
         return False
     if len(stack) < 1:
         return False
+    # BIP65: the operand is a script number of at most 5 bytes
+    if len(stack[-1]) > 5:
+        return False
     element = decode_num(stack[-1])
     if element < 0:
         return False
@@ -881,6 +884,9 @@ def op_checksequenceverify(stack, tx_obj, input_index):
     sequence = tx_obj.tx_ins[input_index].sequence
     if len(stack) < 1:
         return False
+    # BIP112: the operand is a script number of at most 5 bytes
+    if len(stack[-1]) > 5:
+        return False
     element = decode_num(stack[-1])
     if element < 0:
         return False
@@ -891,7 +897,8 @@ def op_checksequenceverify(stack, tx_obj, input_index):
         return False
     if tx_obj.version < 2:
         return False
-    stack_sequence = Sequence(element)
+    # only the low 32 bits take part in the comparison
+    stack_sequence = Sequence(element & 0xFFFFFFFF)
     if not sequence.is_comparable(stack_sequence):
         return False
     if sequence < stack_sequence:
